@@ -61,6 +61,7 @@ def _run_chunk(binp, tmp, tag, lines, timeout):
     todo = list(lines)
     rnd = 0
     solo = False    # one process per script
+    hangs = 0
     while todo:
         rnd += 1
         fin = os.path.join(tmp, "ls-%s-%d.in" % (tag, rnd))
@@ -104,6 +105,10 @@ def _run_chunk(binp, tmp, tag, lines, timeout):
                 continue
             crashes[started] = err
             todo = todo[pos + 1:]
+            if "watchdog:" in err:
+                hangs += 1
+                if hangs >= 2:
+                    break   # every hang costs the watchdog's real-time budget: two are evidence enough for this chunk
         else:
             crashes["?"] = err
             break
@@ -124,6 +129,13 @@ def run_scripts(ctx, binp, scripts, workers=12, timeout=900):
             for k, v in r.items():
                 obs[int(k)] = v
             for k, v in c.items():
+                if k != "?" and "watchdog:" in v:
+                    # not a crash of the library: the script does not finish under the virtual clock (synctest cannot advance
+                    # time or see the deadlock while a library goroutine waits on package-level state created outside the
+                    # bubble). The harness cannot judge this script; it is a broken correspondence, not a failing input.
+                    ctx.broken.append({"kind": "correspondence", "detail": "script hangs under testing/synctest (a library goroutine waits on package-level state outside the bubble); "
+                                       "the lock-step harness cannot run it", "case": scripts[int(k)]})
+                    continue
                 crashes[int(k) if k != "?" else -1] = v
     return obs, crashes
 
